@@ -640,3 +640,264 @@ def gen_indexing(rng):
             g = p.push({'op': 'getitem', 'a': a, 'idx': idx}, p.arr_opaque())
             p.push({'op': 'squeeze', 'a': g}, {'kind': 'scalar'})
     return p.case()
+
+
+# ---- targeted: tensors whose blocks are NON-CONTIGUOUS VIEWS as receivers and operands of the in-place / BLAS kernels --------
+# take_slice / a[:, i, :] leave blocks `block[:, ri, :]` (strided sub-views WITH GAPS of the deep copy's buffers), itranspose leaves
+# permuted views of whole buffers, and blocks may be handed over in any memory layout (spec['layout']: Fortran order / a sub-view of a
+# larger buffer).  The compiled kernels hand raw data pointers to BLAS, so each of them has to make such blocks contiguous first; the
+# programs below apply every in-place kernel (iscale_prefactor, *=, /=, +=, -=, iadd_prefactor_other, itranspose, iconj) and the
+# BLAS-backed ones (tensordot, inner; directly and through the workers) to FRESH views, as receiver and as operand, and keep the
+# tensor the view was taken from alive (its fingerprint is part of every step record).
+
+VIEW_DTYPES = ['float64', 'float64', 'float64', 'complex128', 'complex128', 'complex128', 'float32', 'complex64', 'int64']
+VIEW_SCALARS = [2.5, -3.0, 0.5, 4.0, 2, -1, ['c', 0.5, 2.0], ['c', 0.0, 1.0], -1.0, ['n', 'float64', 1.5, 0.0],
+                ['n', 'float32', 0.5, 0.0], ['n', 'complex128', 1.0, -1.0]]
+
+
+def _valid(mods, q):
+    return [x if m == 1 else x % m for x, m in zip(q, mods)]
+
+
+def gen_strided_views(rng):
+    p = Prog(rng, empty_blocks=False, bad_rate=0.0, worker_rate=0.3)
+    for l in p.pool:                                   # blocks of size >= 2 on most legs: an index inside a block leaves gaps
+        l['sizes'] = [rng.choice([1, 2, 2, 3, 3, 4]) for _ in l['sizes']]
+    mods, pool = p.mods, p.pool
+    rank = rng.choice([2, 3, 3, 3, 3, 4])
+    types = [['L', rng.randrange(len(pool)), rng.choice([1, -1])] for _ in range(rank)]
+    dtype = rng.choice(VIEW_DTYPES)
+    info = {}       # register -> {'qtotal', 'blocks' (block indices believed to be stored), 'dtype', 'origin'}
+
+    def distinct_entries(spec):
+        for blk in spec['blocks']:
+            blk['re'] = [rng.randint(1, 9) * rng.choice([1, -1]) for _ in blk['re']]
+            if blk['im'] is not None:
+                blk['im'] = [rng.randint(-4, 4) for _ in blk['re']]
+
+    def fresh(legs, labels, qtotal=None, dt=None, fill=None, layout='rand'):
+        legs3 = [base_leg(pool, t) for t in legs]
+        if qtotal is None:
+            qtotal = charge_of(mods, legs3, [rng.randrange(len(l[0])) for l in legs3])
+        r = p.new(types=[list(t) for t in legs], labels=list(labels), dtype=dt or dtype, qtotal=list(qtotal),
+                  fill=fill if fill is not None else rng.choice([1.0, 1.0, 0.7]))
+        spec = p.steps[r]['spec']
+        distinct_entries(spec)
+        if layout == 'rand':
+            layout = rng.choice([None, None, None, 'F', 'strided'])
+        if layout:
+            spec['layout'] = layout
+        info[r] = {'qtotal': list(qtotal), 'blocks': [list(b['q']) for b in spec['blocks']], 'dtype': spec['dtype'],
+                   'layout': layout}
+        return r
+
+    a = fresh(types, rng.sample(LABELS[:8], rank))
+    roots = [a]
+    lazy = {}
+
+    def conj_of(r):
+        if ('conj', r) not in lazy:
+            R = p.regs[r]
+            lazy[('conj', r)] = p.push({'op': 'conj', 'a': r}, p.arr([conj_t(t) for t in R['legs']], [conj_label(l) for l in R['labels']]))
+        return lazy[('conj', r)]
+
+    def make_view(src, same_as=None):
+        """a.take_slice(...) / a[:, i, :]: returns the register of the view or None.  same_as: (axes, block index per axis) of an
+        earlier view of src -> same legs and qtotal, other index inside the same charge blocks"""
+        S = p.regs[src]
+        n = len(S['legs'])
+        if n < 2 or src not in info:
+            return None
+        if same_as is not None:
+            axes, qis = same_as
+        else:
+            k = 1 if (n == 2 or rng.random() < 0.75) else 2
+            axes = []
+            while len(axes) < k:                       # the first axis (contiguous slices) is the control, rarely chosen
+                ax = rng.choice([0] + list(range(1, n)) * 3)
+                if ax not in axes:
+                    axes.append(ax)
+            blk = rng.choice(info[src]['blocks']) if info[src]['blocks'] and rng.random() < 0.9 else None
+            qis = [blk[ax] if blk is not None else rng.randrange(len(base_leg(pool, S['legs'][ax])[0])) for ax in axes]
+        idxs = []
+        for ax, qi in zip(axes, qis):
+            sizes = base_leg(pool, S['legs'][ax])[0]
+            idxs.append(sum(sizes[:qi]) + rng.randrange(sizes[qi]))
+        if rng.random() < 0.6:
+            st = {'op': 'take_slice', 'a': src, 'indices': idxs, 'axes': [p.axis_ref(src, ax) for ax in axes]}
+        else:
+            ix = ['all'] * n
+            for ax, i in zip(axes, idxs):
+                ln = sum(base_leg(pool, S['legs'][ax])[0])
+                ix[ax] = i if rng.random() < 0.8 else i - ln
+            while ix and ix[-1] == 'all' and rng.random() < 0.5:
+                ix.pop()
+            if len(ix) < n and rng.random() < 0.3:
+                ix.append('ell')
+            st = {'op': 'getitem', 'a': src, 'idx': ix}
+        keep = [i for i in range(n) if i not in axes]
+        v = p.push(st, p.arr([S['legs'][i] for i in keep], [S['labels'][i] for i in keep]))
+        qt = list(info[src]['qtotal'])
+        for ax, qi in zip(axes, qis):
+            sz, ch, qc = base_leg(pool, S['legs'][ax])
+            qt = [x - qc * c for x, c in zip(qt, ch[qi])]
+        info[v] = {'qtotal': _valid(mods, qt), 'dtype': info[src]['dtype'], 'origin': (src, list(axes), list(qis)),
+                   'blocks': [[b[i] for i in keep] for b in info[src]['blocks'] if all(b[ax] == qi for ax, qi in zip(axes, qis))],
+                   'layout': 'view'}
+        return v
+
+    def partner(v, kinds=('same-slice', 'fresh', 'fresh', 'copy')):
+        """a tensor with the legs, labels and qtotal of v"""
+        V = p.regs[v]
+        kind = rng.choice(kinds)
+        if kind == 'same-slice' and 'origin' in info[v]:
+            src, axes, qis = info[v]['origin']
+            w = make_view(src, same_as=(axes, qis))
+            if w is not None and p.regs[w]['legs'] == V['legs'] and p.regs[w]['labels'] == V['labels'] and \
+                    info[w]['qtotal'] == info[v]['qtotal']:
+                return w
+        if kind == 'copy':
+            w = p.push({'op': 'copy_deep', 'a': v}, p.arr(list(V['legs']), list(V['labels'])))
+            info[w] = dict(info[v], layout=None)
+            info[w].pop('origin', None)
+            return w
+        dt = info[v]['dtype'] if rng.random() < 0.75 else rng.choice(VIEW_DTYPES)
+        return fresh(V['legs'], V['labels'], qtotal=info[v]['qtotal'], dt=dt, fill=rng.choice([1.0, 0.6]))
+
+    def op_on(v):
+        V = p.regs[v]
+        n = len(V['legs'])
+        r = rng.random()
+        if r < 0.30:
+            op = rng.choice(['iscale', 'iscale_prefactor', 'idiv'])
+            p.push({'op': op, 'a': v, 's': rng.choice(VIEW_SCALARS)}, {'kind': 'none'})
+        elif r < 0.55:
+            w = partner(v)
+            x, y = (v, w) if rng.random() < 0.5 else (w, v)          # the view as receiver / as operand
+            st = {'op': rng.choice(['iadd', 'isub', 'iadd_prefactor_other', 'iadd_prefactor_other']), 'a': x, 'b': y}
+            if st['op'] == 'iadd_prefactor_other':
+                st['s'] = rng.choice(VIEW_SCALARS)
+            p.push(st, {'kind': 'none'})
+        elif r < 0.61:
+            op = rng.choice(['add', 'sub', 'scale', 'rscale', 'div'])
+            if op in ('add', 'sub'):
+                w = partner(v)
+                x, y = (v, w) if rng.random() < 0.5 else (w, v)
+                st = {'op': op, 'a': x, 'b': y}
+            else:
+                st = {'op': op, 'a': v, 's': rng.choice(VIEW_SCALARS)}
+            nr = p.push(st, p.arr(list(V['legs']), list(V['labels'])))
+            info[nr] = dict(info[v], layout=None)
+            info[nr].pop('origin', None)
+        elif r < 0.70:
+            perm = list(range(n))
+            rng.shuffle(perm)
+            p.transpose(v, perm, inplace=True)
+            info[v]['blocks'] = [[b[i] for i in perm] for b in info[v]['blocks']]
+            info[v].pop('origin', None)
+        elif r < 0.75:
+            V['legs'], V['labels'] = [conj_t(t) for t in V['legs']], [conj_label(l) for l in V['labels']]
+            p.push({'op': 'iconj', 'a': v}, {'kind': 'none'})
+            info[v]['qtotal'] = _valid(mods, [-x for x in info[v]['qtotal']])
+            info[v].pop('origin', None)
+        elif r < 0.87:
+            other = rng.choice([conj_of(v), conj_of(a), conj_of(a), conj_of(rng.choice(roots))])
+            if rng.random() < 0.5:
+                p.tensordot(v, other)
+            else:
+                p.tensordot(other, v)
+        elif r < 0.95:
+            if rng.random() < 0.5:
+                p.inner(v, partner(v, kinds=('same-slice', 'fresh', 'copy')), True)
+            else:
+                w = partner(v, kinds=('same-slice', 'fresh'))
+                p.inner(v, conj_of(w), False)
+        else:
+            op = rng.choice(['norm', 'copy_deep', 'combine', 'combine'])
+            if op == 'combine':
+                p.combine(v)
+            else:
+                p.push({'op': op, 'a': v}, {'kind': 'scalar'} if op == 'norm' else p.arr(list(V['legs']), list(V['labels'])))
+
+    def whole_tensor_ops(g):
+        """register with legs the generator does not track (projected legs): whole-tensor kernels only"""
+        for _ in range(rng.randint(1, 2)):
+            r = rng.random()
+            if r < 0.45:
+                p.push({'op': rng.choice(['iscale', 'iscale_prefactor', 'idiv']), 'a': g, 's': rng.choice(VIEW_SCALARS)}, {'kind': 'none'})
+            elif r < 0.6:
+                p.push({'op': rng.choice(['iconj', 'imake_contiguous']), 'a': g}, {'kind': 'none'})
+            elif r < 0.7:
+                p.push({'op': 'itranspose', 'a': g, 'axes': None}, {'kind': 'none'})
+            elif r < 0.85:
+                c = p.push({'op': 'conj', 'a': g}, p.arr_opaque())
+                p.push({'op': 'inner', 'a': g, 'b': c, 'axes': 'range', 'do_conj': False}, {'kind': 'scalar'})
+            else:
+                c = p.push({'op': 'copy_deep', 'a': g}, p.arr_opaque())
+                p.push({'op': rng.choice(['iadd', 'isub', 'iadd_prefactor_other']), 'a': c, 'b': g, 's': rng.choice(VIEW_SCALARS)}, {'kind': 'none'})
+
+    for _ in range(rng.choice([2, 3, 3, 4])):
+        r = rng.random()
+        src = rng.choice(roots)
+        S = p.regs[src]
+        n = len(S['legs'])
+        lens = [sum(base_leg(pool, t)[0]) for t in S['legs']]
+        if r < 0.62:
+            v = make_view(src)
+            if v is not None and len(p.regs[v]['legs']) >= 2 and rng.random() < 0.2:
+                v = make_view(v) or v                   # a view of a view
+        elif r < 0.72:
+            # the tensor as handed over (blocks in Fortran order / sub-views of a larger buffer) or a new one
+            v = src if info[src].get('layout') and rng.random() < 0.5 else fresh(S['legs'], S['labels'], layout=rng.choice(['F', 'strided']))
+            if v not in roots:
+                roots.append(v)
+        elif r < 0.80:
+            perm = list(range(n))
+            rng.shuffle(perm)
+            v = p.transpose(src, perm)
+            info[v] = dict(info[src], blocks=[[b[i] for i in perm] for b in info[src]['blocks']], layout='T')
+            info[v].pop('origin', None)
+        elif r < 0.86:
+            v = p.push({'op': 'from_ndarray_strided', 'a': src}, p.arr(list(S['legs']), list(S['labels'])))
+            info[v] = dict(info[src], layout=None)
+            info[v].pop('origin', None)
+        else:
+            # projections: a[mask / slice / index array, i, ...] (take_slice + iproject + permute), iproject in place, squeeze
+            k = rng.random()
+            if k < 0.4:
+                c = p.push({'op': 'copy_deep', 'a': src}, p.arr_opaque())
+                ax = rng.randrange(n)
+                mask = [rng.random() < 0.7 for _ in range(lens[ax])]
+                mask[rng.randrange(lens[ax])] = True
+                p.push({'op': 'iproject', 'a': c, 'mask': mask, 'axis': p.axis_ref(src, ax)}, {'kind': 'none'})
+                whole_tensor_ops(c)
+            else:
+                ix = []
+                for ln in lens:
+                    q = rng.random()
+                    if q < 0.35:
+                        ix.append(rng.randrange(ln))
+                    elif q < 0.55:
+                        ix.append('all')
+                    elif q < 0.8:
+                        lo = rng.randrange(ln)
+                        ix.append(['s', lo, rng.randint(lo + 1, ln), rng.choice([None, None, 2])])
+                    else:
+                        m = [rng.random() < 0.7 for _ in range(ln)]
+                        m[rng.randrange(ln)] = True
+                        ix.append(['m', m])
+                if all(isinstance(x, int) for x in ix):
+                    ix[rng.randrange(n)] = 'all'
+                g = p.push({'op': 'getitem', 'a': src, 'idx': ix}, p.arr_opaque())
+                if k < 0.6:
+                    g = p.push({'op': 'squeeze', 'a': g}, p.arr_opaque())
+                whole_tensor_ops(g)
+            continue
+        if v is None:
+            continue
+        for _ in range(rng.choice([1, 1, 2, 2, 3])):
+            op_on(v)
+    # the sources once more at the end (they must be what they were: part of the final state, and usable)
+    if rng.random() < 0.5:
+        p.push({'op': 'norm', 'a': a}, {'kind': 'scalar'})
+    return p.case()
